@@ -6,6 +6,7 @@ Generated configurations of the *real* program (flags, GOMAXPROCS), built from
 import fcntl, json, os, random, re, shutil, subprocess, sys, time
 
 ROOT = os.path.dirname(os.path.dirname(os.path.abspath(__file__)))
+EVDIR = os.environ.get("VERIF_EVIDENCE_DIR") or os.path.join(ROOT, "evidence")  # scratch runs (bin/tryseed) must not clobber the evidence
 LINE = re.compile(r'approving block\s+(\{.*\})')
 
 
@@ -155,8 +156,8 @@ def main(prop, spec, argv, seed, chk):
             },
             "assumptions": spec["assumptions"], "wall_s": round(time.time() - t0, 1), "violations": len(viols),
         }
-        os.makedirs(os.path.join(ROOT, "evidence"), exist_ok=True)
-        json.dump(ev, open(os.path.join(ROOT, "evidence", prop + ".json"), "w"), indent=1, sort_keys=True)
+        os.makedirs(EVDIR, exist_ok=True)
+        json.dump(ev, open(os.path.join(EVDIR, prop + ".json"), "w"), indent=1, sort_keys=True)
         print("%s %s: %d runs of the real simulation binary, %d non-trivial, wall %.1fs" % (prop, tier, len(results), len(nontriv), time.time() - t0))
         for p in viols:
             print("VIOLATION property=%s replay=%s" % (prop, p))
